@@ -185,6 +185,8 @@ Example C01_program_nonvacuous :
             SRepeat (LLocations "q" (Some (WCycle "h" None))) (SBlock [SReg R_HUE (RVar "h"); SSet (OpList [Target TLocation (NVar "q")]); SCall "down" [RLit (LInt 1)] false]);
             SAssign "total" (RLit (LInt 5));
             SCall "first_in" [RLit (LStr "g")] false;
+            STimeAt [TPat "8:00" [([8%Z], [0%Z])]; TPat "9:3*" [([9%Z], [30%Z; 31%Z; 32%Z])]]; SSet OpAll;
+            SGet (RLit (LStr "a")); SPrintln (Some (RReg R_HUE)); SSet OpDefault;
             SAssign "who" (RCall "pick" [RLit (LStr "g")]); SPrintln (Some (RVar "who"));
             SReg R_HUE (RCall "sq" [RVar "total"]); SPrint (Some (RCall "sq" [RExpr (EBin BSub (EVar "total") (ELit (LInt 7)))]));
             SPrintln (Some (RVar "total"))] in
